@@ -15,10 +15,8 @@ def run(ctx, monitors):
     ctx.model_check("PartialCache", "MC_PartialCache_single.cfg")
     if not q:
         ctx.model_check("PartialCache", "MC_PartialCache_big.cfg", timeout=1500)
-    # the design does NOT keep the per-signer bound once two signers cooperate: TLC reports it
-    # on the model; it only becomes a verdict through the replay below.
-    r = ctx.model_check("PartialCache", "MC_PartialCache_bound.cfg", expect_ok=False)
-    ctx.notes.append("MC_PartialCache_bound (SigsBounded on the design, 2 signers): %s" % (r.violated or "holds"))
+    # per-signer bounds with two cooperating signers (the original code violated SigsBounded here: F18, fixed)
+    ctx.model_check("PartialCache", "MC_PartialCache_bound.cfg")
     # 2. spec -> code: TLC simulation walks at the real constant, printed as scripts
     n = 2 if q else 10
     sim = ctx.model_check("Sim_PartialCache", "Sim_PartialCache.cfg", workers=1, simulate="num=%d" % n,
